@@ -21,6 +21,9 @@ def tissues():
         "adhering": [tc.cell(0, 0.0, level=2, growth=1e-11), tc.cell(1, d, level=2)],
         "overlap_types": [tc.cell(0, 0.0, level=2), tc.cell(1, 1.6 * R, level=1, ctype=2, nft=1), tc.cell(2, 0.0, level=1, ctype=4, nft=1, y=1.7 * R)],
         "ecm": [tc.cell(0, 0.0, level=2, growth=2e-11), tc.cell(1, 1.7 * R, level=2, ctype=1, nft=1)],
+        # a flat cell with a sharp rim (neighbouring faces more than 90 degrees apart) whose long rim edges are split at once: orientation
+        # decisions of the remeshing at creases, which an origin-based volume formula turns into a position dependence
+        "flat": [dict(tc.cell(0, 0.0, level=1, growth=1e-11), jitter=0.03, stretch=[1.0, 1.1, 0.15]), tc.cell(1, 3.5 * R, level=1)],
         # a history with a division (iteration 5): the division axis, the cut and the remeshing of the daughters happen at both places
         # (a generic ellipsoid: on the symmetric test sphere the division plane passes exactly through nodes, a tie decided by rounding)
         "dividing": [dict(tc.cell(0, 0.0, level=2, growth=1e-11), jitter=0.04, stretch=[1.35, 1.0, 0.85]), tc.cell(1, 3.5 * R, level=1)],
@@ -122,6 +125,12 @@ def run(tier, seed, replay=None):
                     z[side] = {k: v for k, v in z[side].items() if k not in ("final", "digest", "parsed")}
             zipped[-1]["same_length"] = len(A) == len(B)
             zipped[-1]["num"] = {"pos_match": pos_ok, "vol_match": vol_ok, "press_match": pr_ok}
+            if len(A) != len(B):
+                # (TLC refuses a constant-level FALSE invariant instead of reporting it: the two logs of different lengths are reported here)
+                chk.violation("impl:P_SameLength:%s:%s:%s" % (variant, name, t), "tissue '%s' translated by %s (%s): the translated run logged %d phase events, the reference run %d (one of them stopped or changed its population)" % (
+                    name, t, variant, len(B), len(A)), case)
+                ntr += 1
+                continue
             p = os.path.join(work, "pair_%s_%d.ndjson" % (name, j))
             vlib.write_ndjson(p, zipped)
             res = vlib.tlc(SPEC, "PairTrace", "PairTrace.cfg", workers=1, env={"OBS": p}, cont=True, timeout=900, xmx="3g", metadir=os.path.join(work, "md_%s_%d" % (name, j)))
